@@ -10,5 +10,5 @@ fi
 cd "$(dirname "$0")/.."
 VERIF_REPO=$WT ./check $ID $TIER 2>&1 | grep -E "VIOLATION|kind=|HARNESS|^\[" | head -12
 rc=${PIPESTATUS[0]}
-git -C /repo worktree remove --force $WT
+git -C /repo worktree remove --force $WT; rm -f replays/$ID/fail-*.json
 exit $rc
